@@ -8,13 +8,13 @@ META = dict(
                'list length within the vector bound (3 quick / 5 thorough) and all values: Plume::parse_entries either raises an exception or leaves one cross-section depth, '
                'semi-major axis, eccentricity and rotation angle per coordinate (what Plume::properties indexes by), and terminates for every length incl. 0; '
                'PlumeModels::Temperature::Gaussian::parse_entries either raises an exception or leaves three per-depth lists of equal length; '
-               'OceanicPlateModels::Temperature::HalfSpaceModel/PlateModel::parse_entries either raise an exception or leave one spreading velocity per ridge point '
+               'OceanicPlateModels::Temperature::HalfSpaceModel/PlateModel::parse_entries and SubductingPlateModels::Temperature::MassConserving::parse_entries either raise an exception or leave one spreading velocity per ridge point '
                '(<= 3 ridges of <= 2 points) and read the value table only inside its bounds.',
     level_note='Trusted: translator, shims (std::string = handle determined by content for literals, arbitrary for file values), CBMC; the verified configuration is '
                '-DNDEBUG (the one the pinned suite builds): WBAssert is compiled out. Parameters::get*/get_vector are contract stubs answering any value/list. Bytes -> JSON -> '
                'schema validation (rapidjson, Parameters::initialize) and every other parse_entries function are not under contract.',
-    scope='CoordinateSystems::Spherical::parse_entries, Features::Plume::parse_entries, Features::PlumeModels::Temperature::Gaussian::parse_entries, Features::OceanicPlateModels::Temperature::HalfSpaceModel::parse_entries, ...::PlateModel::parse_entries',
-    not_covered=['JSON parsing and schema validation', 'length consistency of list-valued parameters of other features (mass conserving slab model tables, slab/fault segment tables)',
+    scope='CoordinateSystems::Spherical::parse_entries, Features::Plume::parse_entries, Features::PlumeModels::Temperature::Gaussian::parse_entries, Features::OceanicPlateModels::Temperature::HalfSpaceModel::parse_entries, ...::PlateModel::parse_entries, Features::SubductingPlateModels::Temperature::MassConserving::parse_entries',
+    not_covered=['JSON parsing and schema validation', 'length consistency of list-valued parameters of other features (slab/fault segment and section tables); "subducting velocity" of the mass conserving model is assumed non-empty',
                  'formatting/comment/key-order independence', 'uninitialised reads other than the depth-method enum field', 'the Types::* declaration layer (schema bounds)'],
     enforced_elsewhere={},
 )
@@ -81,6 +81,38 @@ for _model, _file in [('HalfSpaceModel', 'half_space_model'), ('PlateModel', 'pl
             (_fn, 5): dict(contract='__CPROVER_assigns(index_y, ridge_point_index, spreading_rates_for_ridge)\n'
                                     '__CPROVER_loop_invariant((unsigned long)index_y <= mid_oceanic_ridge->n && spreading_rates_for_ridge.n == (size_t)index_y && (size_t)ridge_point_index == PRE(wb_i4) + (size_t)index_y)\n'
                                     '__CPROVER_decreases(mid_oceanic_ridge->n - (unsigned long)index_y)')}))
+
+_fn = 'Features_SubductingPlateModels_Temperature_MassConserving_parse_entries'
+UNITS.append(dict(
+    name='mass_conserving_parse', enforce=_fn, contracts='c12_mass_conserving.c', harness='h_mass_conserving_parse',
+    targets=[dict(tu='source/world_builder/features/subducting_plate_models/temperature/mass_conserving.cc',
+                  qual='WorldBuilder::Features::SubductingPlateModels::Temperature::MassConserving::parse_entries')],
+    stub_prefixes=['Parameters_'], stub=['CoordinateSystems_Interface_natural_coordinate_system'], nothrow=['CoordinateSystems_Interface_natural_coordinate_system'],
+    replace=['Parameters_get_value_at_array', 'Parameters_get_vector__string__ret_vector_Point_2', 'Parameters_get_vector_or_double', 'Parameters_get__string__ret_basic_string_char'],
+    outline_fp='all', unwind_complete=3, defines={'WB_VEC_CAP': 2, 'WB_CAP_vec_double': 4, 'WB_CAP_vec_vec_Point2': 3, 'WB_CAP_vec_vec_double': 3},
+    expect_fail=['REACHABILITY-GUARD'], timeout=900, object_bits=12,
+    loops={
+        (_fn, 1): dict(contract='__CPROVER_assigns(wb_i1, wb_r1->data[0].data, wb_r1->data[1].data, wb_r1->data[2].data)\n'
+                                '__CPROVER_loop_invariant(wb_i1 <= wb_r1->n && wb_r1 == &this_->mid_oceanic_ridges)\n__CPROVER_decreases(wb_r1->n - wb_i1)'),
+        (_fn, 2): dict(contract='__CPROVER_assigns(wb_i2, wb_r2->data)\n'
+                                '__CPROVER_loop_invariant(wb_i2 <= wb_r2->n && wb_r2 == ridge_coordinates)\n__CPROVER_decreases(wb_r2->n - wb_i2)'),
+        (_fn, 3): dict(contract='__CPROVER_assigns(wb_i3, n_ridge_points)\n'
+                                '__CPROVER_loop_invariant(wb_i3 <= wb_r3->n && wb_r3 == &this_->mid_oceanic_ridges && n_ridge_points == PRE(wb_i3))\n'
+                                '__CPROVER_decreases(wb_r3->n - wb_i3)'),
+        (_fn, 4): dict(pre='\n#undef UPTO\n#define UPTO wb_i4\n',
+                       contract='__CPROVER_assigns(wb_i4, ridge_point_index, this_->ridge_spreading_velocities_at_each_ridge_point, wb_thrown)\n'
+                                '__CPROVER_loop_invariant(wb_i4 <= wb_r4->n && wb_r4 == &this_->mid_oceanic_ridges && SV.n == wb_i4 && (size_t)ridge_point_index == PRE(wb_i4))\n'
+                                '__CPROVER_loop_invariant(SVOK(0) && SVOK(1) && SVOK(2))\n'
+                                '__CPROVER_decreases(wb_r4->n - wb_i4)'),
+        (_fn, 5): dict(contract='__CPROVER_assigns(index_y, ridge_point_index, ridge_spreading_velocities_for_ridge)\n'
+                                '__CPROVER_loop_invariant((unsigned long)index_y <= mid_oceanic_ridge->n && ridge_spreading_velocities_for_ridge.n == (size_t)index_y && (size_t)ridge_point_index == PRE(wb_i4) + (size_t)index_y)\n'
+                                '__CPROVER_decreases(mid_oceanic_ridge->n - (unsigned long)index_y)'),
+        (_fn, 6): dict(contract='__CPROVER_assigns(ridge_index, wb_thrown)\n'
+                                '__CPROVER_loop_invariant((unsigned long)ridge_index <= this_->mid_oceanic_ridges.n && !wb_thrown)\n'
+                                '__CPROVER_decreases(this_->mid_oceanic_ridges.n - (unsigned long)ridge_index)'),
+        (_fn, 7): dict(contract='__CPROVER_assigns(point_index, wb_thrown)\n'
+                                '__CPROVER_loop_invariant((unsigned long)point_index <= this_->mid_oceanic_ridges.data[ridge_index].n && !wb_thrown)\n'
+                                '__CPROVER_decreases(this_->mid_oceanic_ridges.data[ridge_index].n - (unsigned long)point_index)')}))
 
 SPH = '{"version":"1.1", "coordinate system":{"model":"spherical", "depth method":"%s"}, "features":[]}'
 
@@ -184,8 +216,40 @@ def oracle_ridge_tables(work, model='half space model'):
     return dict(status='holds', detail='%s: spreading-velocity tables that do not match the ridge points are rejected by an exception' % model)
 
 
+def oracle_mass_conserving(work):
+    """mass conserving slab temperature: a spreading-velocity table with several values but fewer than ridge points is refused"""
+    import oracle
+    base = json.load(open(os.path.join(os.environ.get('GWB_REPO', '/repo'), 'tests/gwb-dat/mass_conserving_slab_with_variable_spreading.wb')))
+
+    def world(sv, ridges):
+        d = json.loads(json.dumps(base))
+        for f in d['features']:
+            if f['model'] == 'subducting plate':
+                for m_ in f['temperature models']:
+                    if m_['model'] == 'mass conserving':
+                        m_['spreading velocity'] = sv
+                        m_['ridge coordinates'] = ridges
+                        m_['subducting velocity'] = 0.05
+        return json.dumps(d)
+    r3 = [[[0, -1000.0], [0, 0.0], [0, 1000.0]]]
+    q = oracle.Q(world([[1, [[0.01, 0.02, 0.05]]]], r3), work, name='mc_ok')
+    try:
+        if q.construct_error:
+            return dict(status='error', detail='consistent mass conserving model rejected: %s' % q.construct_error)
+    finally:
+        q.close()
+    q = oracle.Q(world([[1, [[0.01, 0.05]]]], r3), work, name='mc_bad')
+    try:
+        if not q.construct_error:
+            return dict(status='violated', input={'spreading velocity': [[1, [[0.01, 0.05]]]], 'ridge coordinates': r3},
+                        detail='mass conserving model with 2 spreading velocities for a ridge of 3 points is accepted without an exception (parse_entries indexes the value list by ridge point: out-of-bounds read)')
+    finally:
+        q.close()
+    return dict(status='holds', detail='mass conserving: a spreading-velocity table that does not match the ridge points is rejected by an exception')
+
+
 def native_oracle(witness, work, search_seed=None):
-    subs = dict(spherical_parse=oracle_depth_method, plume_parse=oracle_plume_lists, gaussian_parse=oracle_gaussian_lists,
+    subs = dict(mass_conserving_parse=oracle_mass_conserving, spherical_parse=oracle_depth_method, plume_parse=oracle_plume_lists, gaussian_parse=oracle_gaussian_lists,
                 half_space_model_parse=lambda w: oracle_ridge_tables(w, 'half space model'), plate_model_parse=lambda w: oracle_ridge_tables(w, 'plate model'))
     order = [witness['unit']] if witness.get('unit') in subs else list(subs)
     details = []
